@@ -205,7 +205,6 @@ fn parse_case(a: &[&str]) -> Option<Case> {
 // ---------- building through gimli::write ----------
 
 struct Built {
-    dwarf: write::Dwarf,
     rids: Vec<write::RangeListId>,
     lids: Vec<write::LocationListId>,
 }
@@ -229,8 +228,7 @@ fn build_expr(x: &Expr, unit: write::UnitId, bases: &[write::UnitEntryId]) -> Ex
     e
 }
 
-fn build(c: &Case) -> Built {
-    let mut dwarf = write::Dwarf::new();
+fn build(dwarf: &mut write::Dwarf, c: &Case) -> Built {
     let uid = dwarf.units.add(write::Unit::new(c.enc, write::LineProgram::none()));
     let unit = dwarf.units.get_mut(uid);
     let root = unit.root();
@@ -280,7 +278,7 @@ fn build(c: &Case) -> Built {
         unit.get_mut(die).set(k::DW_AT_location, AttributeValue::LocationListRef(id));
         lids.push(id);
     }
-    Built { dwarf, rids, lids }
+    Built { rids, lids }
 }
 
 /// ids as dense numbers in order of first appearance (= the `IndexSet` index)
@@ -373,7 +371,7 @@ fn put_uleb(out: &mut Vec<u8>, mut v: u64) {
 
 /// the bytes an expression as built stands for (DWARF 5 §2.5 / §7.7.1), `actual` = the unit offsets
 /// of the referenced DIEs as found in the written `.debug_info`
-fn naive_expr(c: &Case, actual: &[u64], x: &Expr) -> Option<Vec<u8>> {
+fn naive_expr(c: &Case, ustart: u64, actual: &[u64], x: &Expr) -> Option<Vec<u8>> {
     let mut o = Vec::new();
     let w = if c.enc.format == Format::Dwarf64 { 8 } else { 4 };
     for op in x {
@@ -405,8 +403,8 @@ fn naive_expr(c: &Case, actual: &[u64], x: &Expr) -> Option<Vec<u8>> {
             }
             XOp::CallRef(i) => {
                 o.push(0x9a);
-                // the unit is the first one in `.debug_info`
-                put_uint(&mut o, c.big, w, *actual.get(*i)?);
+                // a `.debug_info` offset: the unit's offset + the DIE's unit offset
+                put_uint(&mut o, c.big, w, ustart + *actual.get(*i)?);
             }
         }
     }
@@ -454,13 +452,14 @@ fn ones_begin(c: &Case, l: &[Ent]) -> bool {
 }
 
 struct ReadBack {
+    ustart: u64,
     base_offs: Vec<u64>,
     roffs: Vec<u64>,
     loffs: Vec<u64>,
     oracle: Option<String>,
 }
 
-fn read_back(c: &Case, s: &Sections<EndianVec<RunTimeEndian>>) -> Result<ReadBack, String> {
+fn read_back(c: &Case, s: &Sections<EndianVec<RunTimeEndian>>, index: usize) -> Result<ReadBack, String> {
     let endian = if c.big { RunTimeEndian::Big } else { RunTimeEndian::Little };
     let dwarf: read::Dwarf<R> = read::Dwarf::load(|id| -> Result<R, ()> {
         Ok(EndianSlice::new(
@@ -480,9 +479,15 @@ fn read_back(c: &Case, s: &Sections<EndianVec<RunTimeEndian>>) -> Result<ReadBac
         ))
     })
     .map_err(|_| "load".to_string())?;
-    let header = dwarf.units().next().map_err(|e| format!("units:{e:?}"))?.ok_or("no-unit")?;
+    let mut headers = dwarf.units();
+    let mut header = None;
+    for _ in 0..=index {
+        header = headers.next().map_err(|e| format!("units:{e:?}"))?;
+    }
+    let header = header.ok_or("no-unit")?;
+    let ustart = header.offset().0 as u64;
     let unit = dwarf.unit(header).map_err(|e| format!("unit:{e:?}"))?;
-    let mut rb = ReadBack { base_offs: vec![], roffs: vec![], loffs: vec![], oracle: None };
+    let mut rb = ReadBack { ustart, base_offs: vec![], roffs: vec![], loffs: vec![], oracle: None };
     let mut rattrs = Vec::new();
     let mut lattrs = Vec::new();
     let mut cursor = unit.entries();
@@ -602,7 +607,7 @@ fn read_back(c: &Case, s: &Sections<EndianVec<RunTimeEndian>>) -> Result<ReadBac
             Ok(out)
         })();
         let want: Option<Vec<(u64, u64, Vec<u8>)>> = naive_resolve(asz, want_base, l).and_then(|v| {
-            v.into_iter().map(|(b, e, i)| Some((b, e, naive_expr(c, &rb.base_offs, expr_of(&l[i])?)?))).collect()
+            v.into_iter().map(|(b, e, i)| Some((b, e, naive_expr(c, ustart, &rb.base_offs, expr_of(&l[i])?)?))).collect()
         });
         match (&got, &want) {
             (Ok(g), Some(w)) if g == w => {}
@@ -631,7 +636,7 @@ fn read_back(c: &Case, s: &Sections<EndianVec<RunTimeEndian>>) -> Result<ReadBac
                             XOp::Call(i) => Some(('u', *rb.base_offs.get(*i)?)),
                             XOp::Convert(Some(i)) => Some(('t', *rb.base_offs.get(*i)?)),
                             XOp::Convert(None) => Some(('t', 0)),
-                            XOp::CallRef(i) => Some(('d', *rb.base_offs.get(*i)?)),
+                            XOp::CallRef(i) => Some(('d', ustart + *rb.base_offs.get(*i)?)),
                             _ => None,
                         })
                         .collect();
@@ -690,52 +695,107 @@ fn read_back(c: &Case, s: &Sections<EndianVec<RunTimeEndian>>) -> Result<ReadBac
     Ok(rb)
 }
 
-fn wl_unit(c: &Case) -> String {
-    let mut b = build(c);
-    let endian = if c.big { RunTimeEndian::Big } else { RunTimeEndian::Little };
-    let mut sections = Sections::new(EndianVec::new(endian));
-    if let Err(e) = b.dwarf.write(&mut sections) {
-        return format!("err {}", werr(&e));
+/// "Lists that cannot be represented unambiguously in the chosen encoding — empty ranges, pairs
+/// that need or conflict with a base address, default locations before v5 — are rejected": the
+/// first such entry of a unit written in DWARF 2–4, naively (the unit has a base address iff its
+/// root has a DW_AT_low_pc other than the constant 0; a BaseAddress entry provides one from there on)
+fn unrepresentable(c: &Case) -> Option<String> {
+    if !(2..=4).contains(&c.enc.version) {
+        return None;
     }
-    let rid = dense(&b.rids);
-    let lid = dense(&b.lids);
-    // the reader only accepts address sizes 1, 2, 4, 8 (outside C16's quantifier): what can be
-    // compared then are the ids and the section bytes
-    let readable = matches!(c.enc.address_size, 1 | 2 | 4 | 8);
-    let rb = if !readable {
-        ReadBack { base_offs: c.eoffs.clone(), roffs: vec![], loffs: vec![], oracle: None }
-    } else {
-        match read_back(c, &sections) {
-            Ok(rb) => rb,
-            Err(why) => return format!("ok unreadable {why} #oracle:unreadable {why}"),
-        }
-    };
-    if rb.base_offs != c.eoffs {
-        return format!("bad-layout actual={}", nums(&rb.base_offs));
-    }
-    let mut oracle = rb.oracle.clone();
-    // "equal lists share one identifier and one emitted copy", different lists do not
-    let mut dd = |ls: &Vec<Vec<Ent>>, ids: &Vec<usize>, offs: &Vec<u64>, what: &str| {
-        for i in 0..ls.len() {
-            for j in 0..i {
-                let same = ls[i] == ls[j];
-                if oracle.is_none() && (ids[i] == ids[j]) != same {
-                    oracle = Some(format!("dedup-id {what} lists {j},{i} equal={same} ids={},{}", ids[j], ids[i]));
-                }
-                if oracle.is_none() && offs.len() == ls.len() && (offs[i] == offs[j]) != same {
-                    oracle = Some(format!("dedup-offset {what} lists {j},{i} equal={same} offsets={},{}", offs[j], offs[i]));
+    for (what, ls) in [("range", &c.rng), ("location", &c.loc)] {
+        for (j, l) in ls.iter().enumerate() {
+            let mut hb = have_base(&c.low);
+            for (i, e) in l.iter().enumerate() {
+                let why = match e {
+                    Ent::Base(_) => {
+                        hb = true;
+                        None
+                    }
+                    Ent::OffsetPair(b, e, _) if b == e => Some("empty"),
+                    Ent::OffsetPair(..) if !hb => Some("needs-base"),
+                    Ent::StartEnd(b, e, _) if b == e => Some("empty"),
+                    Ent::StartEnd(..) if hb => Some("conflicts-with-base"),
+                    Ent::StartLength(_, 0, _) => Some("empty"),
+                    Ent::StartLength(..) if hb => Some("conflicts-with-base"),
+                    Ent::Default(_) => Some("default-location"),
+                    _ => None,
+                };
+                if let Some(why) = why {
+                    return Some(format!("{what} list {j} entry {i}: {why}"));
                 }
             }
         }
-    };
-    dd(&c.rng, &rid, &rb.roffs, "range");
-    dd(&c.loc, &lid, &rb.loffs, "location");
+    }
+    None
+}
+
+/// one or two units in one `write::Dwarf`; `uoff_b` = where the second unit must start
+fn wl_units(cs: &[Case], uoff_b: Option<u64>) -> String {
+    let mut dwarf = write::Dwarf::new();
+    let built: Vec<Built> = cs.iter().map(|c| build(&mut dwarf, c)).collect();
+    let endian = if cs[0].big { RunTimeEndian::Big } else { RunTimeEndian::Little };
+    let mut sections = Sections::new(EndianVec::new(endian));
+    if let Err(e) = dwarf.write(&mut sections) {
+        return format!("err {}", werr(&e));
+    }
+    let mut oracle: Option<String> = None;
+    let mut parts = Vec::new();
+    for (index, (c, b)) in cs.iter().zip(built.iter()).enumerate() {
+        let rid = dense(&b.rids);
+        let lid = dense(&b.lids);
+        // the reader only accepts address sizes 1, 2, 4, 8 (outside C16's quantifier): what can be
+        // compared then are the ids and the section bytes
+        let readable = cs.iter().all(|c| matches!(c.enc.address_size, 1 | 2 | 4 | 8));
+        let rb = if !readable {
+            ReadBack { ustart: 0, base_offs: c.eoffs.clone(), roffs: vec![], loffs: vec![], oracle: None }
+        } else {
+            match read_back(c, &sections, index) {
+                Ok(rb) => rb,
+                Err(why) => return format!("ok unreadable {why} #oracle:unreadable {why}"),
+            }
+        };
+        if rb.base_offs != c.eoffs {
+            return format!("bad-layout unit={index} actual={}", nums(&rb.base_offs));
+        }
+        if readable && index == 1 && Some(rb.ustart) != uoff_b {
+            return format!("bad-layout unit-b-offset actual={}", rb.ustart);
+        }
+        if oracle.is_none() {
+            oracle = rb.oracle.clone();
+        }
+        if oracle.is_none() {
+            if let Some(why) = unrepresentable(c) {
+                oracle = Some(format!("accepted-unrepresentable unit {index} {why}"));
+            }
+        }
+        // "equal lists share one identifier and one emitted copy", different lists do not
+        let mut dd = |ls: &Vec<Vec<Ent>>, ids: &Vec<usize>, offs: &Vec<u64>, what: &str| {
+            for i in 0..ls.len() {
+                for j in 0..i {
+                    let same = ls[i] == ls[j];
+                    if oracle.is_none() && (ids[i] == ids[j]) != same {
+                        oracle = Some(format!("dedup-id {what} lists {j},{i} equal={same} ids={},{}", ids[j], ids[i]));
+                    }
+                    if oracle.is_none() && offs.len() == ls.len() && (offs[i] == offs[j]) != same {
+                        oracle = Some(format!("dedup-offset {what} lists {j},{i} equal={same} offsets={},{}", offs[j], offs[i]));
+                    }
+                }
+            }
+        };
+        dd(&c.rng, &rid, &rb.roffs, "range");
+        dd(&c.loc, &lid, &rb.loffs, "location");
+        parts.push(format!(
+            "rid={} lid={} roff={} loff={}",
+            nums(&rid),
+            nums(&lid),
+            if readable { nums(&rb.roffs) } else { "?".into() },
+            if readable { nums(&rb.loffs) } else { "?".into() },
+        ));
+    }
+    let ids = if parts.len() == 1 { parts[0].clone() } else { format!("A:{} B:{}", parts[0], parts[1]) };
     let mut r = format!(
-        "ok rid={} lid={} roff={} loff={} ranges={} rnglists={} loc={} loclists={}",
-        nums(&rid),
-        nums(&lid),
-        if readable { nums(&rb.roffs) } else { "?".into() },
-        if readable { nums(&rb.loffs) } else { "?".into() },
+        "ok {ids} ranges={} rnglists={} loc={} loclists={}",
         hex(sections.debug_ranges.slice()),
         hex(sections.debug_rnglists.slice()),
         hex(sections.debug_loc.slice()),
@@ -755,7 +815,19 @@ pub fn handle(op: &str, a: &[&str]) -> Option<String> {
                 return None;
             }
             let c = parse_case(rest)?;
-            Some(wl_unit(&c))
+            Some(wl_units(&[c], None))
+        }
+        ("wl-unit2", [m, ca, lowa, eoa, rla, lla, uoffb, cb, lowb, eob, rlb, llb]) => {
+            if *m != "debug" && *m != "release" {
+                return None;
+            }
+            let a = parse_case(&[ca, lowa, eoa, rla, lla])?;
+            let b = parse_case(&[cb, lowb, eob, rlb, llb])?;
+            let uoffb = p_u64(uoffb)?;
+            if a.big != b.big {
+                return None;
+            }
+            Some(wl_units(&[a, b], Some(uoffb)))
         }
         _ => None,
     }
@@ -823,6 +895,31 @@ fn layout(enc: Encoding, low: bool, n: usize) -> Vec<u64> {
     let hdr = if enc.version >= 5 { il + 2 + 1 + 1 + w } else { il + 2 + w + 1 };
     let root = 1 + if low { enc.address_size as u64 } else { 0 };
     (0..n as u64).map(|i| hdr + root + 2 * i).collect()
+}
+
+/// size of a whole unit in `.debug_info`: header, root DIE, base types, one DIE (abbreviation code +
+/// section offset) per list, and the null entry that ends the root's children
+fn unit_size(enc: Encoding, low: bool, nbase: usize, nlists: usize) -> u64 {
+    let w: u64 = if enc.format == Format::Dwarf64 { 8 } else { 4 };
+    let il: u64 = if enc.format == Format::Dwarf64 { 12 } else { 4 };
+    let hdr = if enc.version >= 5 { il + 2 + 1 + 1 + w } else { il + 2 + w + 1 };
+    let root = 1 + if low { enc.address_size as u64 } else { 0 };
+    let children = nbase + nlists;
+    hdr + root + 2 * nbase as u64 + nlists as u64 * (1 + w) + if children > 0 { 1 } else { 0 }
+}
+
+fn unit_text(big: bool, enc: Encoding, low: &Option<Address>, nbase: usize, rng: &[Vec<Ent>], loc: &[Vec<Ent>]) -> String {
+    format!(
+        "{},{},{},{} {} {} {} {}",
+        if big { "be" } else { "le" },
+        enc.address_size,
+        if enc.format == Format::Dwarf64 { 64 } else { 32 },
+        enc.version,
+        low.as_ref().map(addr_text).unwrap_or_else(|| "-".into()),
+        nums(&layout(enc, low.is_some(), nbase)),
+        lists_text(rng),
+        lists_text(loc)
+    )
 }
 
 fn case_text(big: bool, enc: Encoding, low: &Option<Address>, nbase: usize, rng: &[Vec<Ent>], loc: &[Vec<Ent>]) -> String {
@@ -1082,61 +1179,81 @@ fn gen_sweep(ctx: &Ctx, emit: &mut dyn FnMut(String)) {
     }
 }
 
+/// one random unit: (encoding, low_pc, number of referable DIEs, range lists, location lists)
+fn gen_unit(g: &mut G) -> (Encoding, Option<Address>, usize, Vec<Vec<Ent>>, Vec<Vec<Ent>>) {
+    let mut enc = Encoding {
+        format: if g.rng.chance(1, 3) { Format::Dwarf64 } else { Format::Dwarf32 },
+        version: 2 + g.rng.below(4) as u16,
+        address_size: if g.rng.chance(1, 2) { 8 } else { 4 },
+    };
+    // ~6 %: configurations outside the quantifier (address sizes 1/2 and unsupported ones,
+    // unsupported versions)
+    match g.rng.below(50) {
+        0 => enc.address_size = *g.rng.pick(&[1u8, 2]),
+        1 => enc.address_size = *g.rng.pick(&[0u8, 3, 5, 9, 16, 31, 32, 255]),
+        2 => enc.version = *g.rng.pick(&[0u16, 1, 6, 0xffff]),
+        _ => {}
+    }
+    let asz = enc.address_size;
+    let low = match g.rng.below(10) {
+        0 | 1 | 2 => None,
+        3 | 4 => Some(Address::Constant(0)),
+        5 | 6 | 7 => Some(Address::Constant(0x1000 * (1 + g.rng.below(15)))),
+        8 => Some(g.addr(asz, false)),
+        _ => Some(Address::Constant(mask(asz) - g.rng.below(3))),
+    };
+    let hb = have_base(&low);
+    let nbase = if g.rng.chance(1, 2) { 0 } else { 1 + g.rng.below(3) as usize };
+    let lists = |g: &mut G, is_loc: bool| -> Vec<Vec<Ent>> {
+        let cnt = match g.rng.below(8) {
+            0 => 0,
+            1 | 2 | 3 => 1,
+            4 | 5 => 2,
+            _ => 2 + g.rng.below(4),
+        };
+        let mut ls: Vec<Vec<Ent>> = Vec::new();
+        for _ in 0..cnt {
+            if !ls.is_empty() && g.rng.chance(1, 3) {
+                // a duplicate, or a near-duplicate (same length, one field changed)
+                let mut l = g.rng.pick(&ls).clone();
+                if g.rng.chance(1, 3) && !l.is_empty() {
+                    let i = g.rng.below(l.len() as u64) as usize;
+                    let mut hbx = hb;
+                    l[i] = g.entry(is_loc, enc, &mut hbx, nbase, true);
+                }
+                ls.push(l);
+            } else {
+                ls.push(g.list(is_loc, enc, hb, nbase));
+            }
+        }
+        ls
+    };
+    let rl = lists(g, false);
+    let ll = lists(g, true);
+    (enc, low, nbase, rl, ll)
+}
+
 pub fn gen(ctx: &Ctx, emit: &mut dyn FnMut(String)) {
     gen_sweep(ctx, emit);
     let mut rng = ctx.rng(16);
-    let n = ctx.n(6000, 300_000);
-    for _ in 0..n {
+    let n = ctx.n(20_000, 400_000);
+    for i in 0..n {
         let mut g = G { rng: &mut rng };
-        let mut enc = Encoding {
-            format: if g.rng.chance(1, 3) { Format::Dwarf64 } else { Format::Dwarf32 },
-            version: 2 + g.rng.below(4) as u16,
-            address_size: if g.rng.chance(1, 2) { 8 } else { 4 },
-        };
-        // ~6 %: configurations outside the quantifier (address sizes 1/2 and unsupported ones,
-        // unsupported versions)
-        match g.rng.below(50) {
-            0 => enc.address_size = *g.rng.pick(&[1u8, 2]),
-            1 => enc.address_size = *g.rng.pick(&[0u8, 3, 5, 9, 16, 31, 32, 255]),
-            2 => enc.version = *g.rng.pick(&[0u16, 1, 6, 0xffff]),
-            _ => {}
+        let (enc, low, nbase, rl, ll) = gen_unit(&mut g);
+        let big = g.rng.chance(1, 3);
+        if i % 4 != 3 {
+            emit(case_text(big, enc, &low, nbase, &rl, &ll));
+        } else {
+            // two units in one `Dwarf`: the second unit's tables follow the first unit's, its DIE
+            // references are relative to its own offset in `.debug_info`; mostly acceptable lists in
+            // the first unit so that the second one is reached
+            let (encb, lowb, nbaseb, rlb, llb) = gen_unit(&mut g);
+            let uoffb = unit_size(enc, low.is_some(), nbase, rl.len() + ll.len());
+            emit(format!(
+                "wl-unit2 @MODE@ {} {uoffb} {}",
+                unit_text(big, enc, &low, nbase, &rl, &ll),
+                unit_text(big, encb, &lowb, nbaseb, &rlb, &llb)
+            ));
         }
-        let asz = enc.address_size;
-        let low = match g.rng.below(10) {
-            0 | 1 | 2 => None,
-            3 | 4 => Some(Address::Constant(0)),
-            5 | 6 | 7 => Some(Address::Constant(0x1000 * (1 + g.rng.below(15)))),
-            8 => Some(g.addr(asz, false)),
-            _ => Some(Address::Constant(mask(asz.min(8).max(1)) - g.rng.below(3))),
-        };
-        let hb = have_base(&low);
-        let nbase = if g.rng.chance(1, 2) { 0 } else { 1 + g.rng.below(3) as usize };
-        let lists = |g: &mut G, is_loc: bool| -> Vec<Vec<Ent>> {
-            let cnt = match g.rng.below(8) {
-                0 => 0,
-                1 | 2 | 3 => 1,
-                4 | 5 => 2,
-                _ => 2 + g.rng.below(4),
-            };
-            let mut ls: Vec<Vec<Ent>> = Vec::new();
-            for _ in 0..cnt {
-                if !ls.is_empty() && g.rng.chance(1, 3) {
-                    // a duplicate, or a near-duplicate (same length, one field changed)
-                    let mut l = g.rng.pick(&ls).clone();
-                    if g.rng.chance(1, 3) && !l.is_empty() {
-                        let i = g.rng.below(l.len() as u64) as usize;
-                        let mut hbx = hb;
-                        l[i] = g.entry(is_loc, enc, &mut hbx, nbase, true);
-                    }
-                    ls.push(l);
-                } else {
-                    ls.push(g.list(is_loc, enc, hb, nbase));
-                }
-            }
-            ls
-        };
-        let rl = lists(&mut g, false);
-        let ll = lists(&mut g, true);
-        emit(case_text(g.rng.chance(1, 3), enc, &low, nbase, &rl, &ll));
     }
 }
